@@ -47,6 +47,22 @@ def drive(rec):
         n = rec["n"]
         t["routes"] = [route(lambda: Element[n]), route(lambda: Element.from_atomic_number(n)),
                        route(lambda: Element[np.int64(n)])]
+        # the array functions: the number alone and next to a valid one; an answer must be that of the element itself
+        t["batch"] = []
+        for name, attr in (("cov_radii", "cov"), ("vdw_radii", "vdw"), ("element_names", "name"), ("element_symbols", "symbol")):
+            for arr in (np.array([n]), np.array([6, n])):
+                b = {"fn": name, "exc": "", "same": False}
+                try:
+                    v = getattr(E, name)(arr)
+                except Exception as ex:
+                    b["exc"] = type(ex).__name__
+                else:
+                    try:
+                        ref = getattr(Element.from_atomic_number(n), attr)
+                        b["same"] = bool(len(v) == len(arr) and v[-1] == ref)
+                    except Exception:
+                        b["same"] = False           # the array function answered for a number the scalar lookup rejects
+                t["batch"].append(b)
     elif k == "name":
         z = rec["z"]
         base = route(lambda: Element.from_atomic_number(z))
